@@ -278,7 +278,8 @@ def check_new(case, ctx):
     except R.Invalid:
         return
     master_matches("C03/new", "new_wallet(%d words, pw %r)" % (case["words"], case["pw"]), w.master, rm, case["testnet"])
-    if w.password != case["pw"]:
+    # (literal echo is C06's clause; here only "another passphrase than the one given" is judged, up to NFKD)
+    if unicodedata.normalize("NFKD", w.password or "") != unicodedata.normalize("NFKD", case["pw"]):
         raise Violation("C03/new/echo", "the wallet records passphrase %r, it was created with %r" % (w.password, case["pw"]))
     st_, w2 = call(BaseWallet.from_mnemonic, w.mnemonic, w.password, case["testnet"])
     if st_ == "exc" or not (w2 == w):
